@@ -177,8 +177,8 @@ static FunctionSignature *parse_function_signature(Stage1Parser *p) {
     }
     advance(p);  /* consume '(' */
     
-    /* Allocate signature */
-    FunctionSignature *sig = malloc(sizeof(FunctionSignature));
+    /* Allocate signature (zeroed: error paths free it before every field is set) */
+    FunctionSignature *sig = calloc(1, sizeof(FunctionSignature));
     sig->param_count = 0;
     sig->param_types = NULL;
     sig->param_struct_names = NULL;
